@@ -1752,6 +1752,37 @@ fn main() {
 			violations.extend(v);
 		}
 	}
+	{
+		// frames far beyond any size the grid reaches (17 MiB and 33 MiB in ONE WebSocket frame): within a limit of 32 MiB the
+		// call is processed, above a limit of 1 MiB / 32 MiB it is turned down with -32007 and the connection keeps serving
+		let cases: Vec<(u32, usize, Entry)> = vec![
+			(32 << 20, 17 << 20, Entry::TowerWs),
+			(1 << 20, 17 << 20, Entry::TowerWs),
+			(32 << 20, 17 << 20, Entry::WsConnect),
+			(1 << 20, (17 << 20) + 1, Entry::WsConnect),
+			(32 << 20, (33 << 20) + 5, Entry::TowerWs),
+		];
+		let seed = ctx.seed;
+		let res = run_parallel(cases, |i, (req, size, entry)| {
+			block_on_virtual(async move {
+				let mut ev = Evidence::new("");
+				let mut violations = Vec::new();
+				let mut env = Env::with_cfg(server_cfg(req, 1 << 20), Log::default());
+				let p = ProbeSpec { entry, req, resp: 1 << 20, size, shape: Shape::U64Ws, msg_seed: Rng::fork(seed ^ 0x16, i as u64).next_u64(), http: None, origin: "huge-frame".into() };
+				if let Some(m) = build_msg(p.shape, p.size, p.msg_seed) {
+					let o = env.run(&p, &m).await;
+					let vs = judge(&p, &m, &o);
+					record(&mut ev, &mut violations, &p, &m, &o, vs);
+					ev.count("huge_frame_probes", 1);
+				}
+				(ev, violations)
+			})
+		});
+		for (e, v) in res {
+			ev.merge(e);
+			violations.extend(v);
+		}
+	}
 	let mut inconclusive = None;
 	if ctx.tier == Tier::Thorough {
 		let t0 = std::time::Instant::now();
